@@ -288,6 +288,28 @@ def canon_out(v):
     return f"[s,{kind_of(v)},{sv_canon(v)}]"
 
 
+_KNOWN_CACHE = {}
+
+
+def report(ctx, key, clause, case, observed=None, expected=None):
+    """ctx.fail, except that a LISTED known finding is reported the first three times it is seen and counted afterwards:
+    the run keeps at most 200 failures (common.Ctx.fail) and the mixed-kind stream alone produces hundreds of known
+    promotions in the thorough tier, which must not crowd out a new failure of a later stream (flags, direct pack)"""
+    if "k" not in _KNOWN_CACHE:
+        try:
+            _KNOWN_CACHE["k"] = {f["key"] for f in common.load_findings()["finding"] if f["property"] == "C05"}
+        except Exception:  # noqa: BLE001
+            _KNOWN_CACHE["k"] = set()
+    if key in _KNOWN_CACHE["k"]:
+        if not hasattr(ctx, "_c05_known_seen"):
+            ctx._c05_known_seen = {}
+        ctx._c05_known_seen[key] = ctx._c05_known_seen.get(key, 0) + 1
+        if ctx._c05_known_seen[key] > 3:
+            ctx.count(f"known finding seen again (not re-reported): {key}")
+            return
+    ctx.fail(key, clause, case, observed, expected)
+
+
 # --------------------------------------------------------------------------- the real stack
 class Stack:
     """fake composites with a real ParameterCollection, written/read by the real Database methods"""
@@ -951,7 +973,7 @@ def run_direct_pack(ctx, h5file):
             impl.append(_direct_impl_line(ds, g))
             ctx.case(("direct", dt, trial, json.dumps(case["values"])), nontrivial=True)
             if f is not None:
-                ctx.fail(f.key, f.clause, f.case, f.observed, f.expected)
+                report(ctx, f.key, f.clause, f.case, f.observed, f.expected)
             else:
                 n_ok += 1
     ctx.count("direct packSpecialData array+None round trips held", n_ok)
@@ -1173,7 +1195,7 @@ def run_values(ctx, h5file):
         stream = "excluded-point" if i < len(corpus) else "in-domain"
         f = oracle(ctx, ents, values, res, stream)
         if f is not None:
-            ctx.fail(f.key, f.clause, f.case, f.observed, f.expected)
+            report(ctx, f.key, f.clause, f.case, f.observed, f.expected)
         if in_model_domain(ents):
             w = wire(ents)
             req.append("write " + w); impl.append(impl_line(res)); cases.append({"entries": entries_json(ents)})
@@ -1186,7 +1208,7 @@ def run_values(ctx, h5file):
         res = stack.roundtrip(h5file, values)
         f = oracle(ctx, ents, values, res, "mixed (oracle only)")
         if f is not None:
-            ctx.fail(f.key, f.clause, f.case, f.observed, f.expected)
+            report(ctx, f.key, f.clause, f.case, f.observed, f.expected)
         ctx.case(wire(ents), nontrivial=True)
     for i in range(ctx.pick(400, 5000)):
         ents = gen_text(rng)
@@ -1196,7 +1218,7 @@ def run_values(ctx, h5file):
         res = stack.roundtrip(h5file, values)
         f = oracle(ctx, ents, values, res, "text (oracle only)")
         if f is not None:
-            ctx.fail(f.key, f.clause, f.case, f.observed, f.expected)
+            report(ctx, f.key, f.clause, f.case, f.observed, f.expected)
         ctx.case(("text", repr(ents)), nontrivial=True)
     # the hypotheses of the main theorem (write_read_decided: domainOf, noSentinelB) evaluated BY THE MODEL on every value
     # list of the correspondence stream, in the same driver process
